@@ -115,7 +115,7 @@ def flatten(recs):
         hdr['faulty'] += sorted({e['t'] for e in evs if e['ev'] == 'BmReply' and e.get('err') == 'fatal'})
         hdr['roots'] += sorted(set(roots))
         hdr['machs'] += [M(k) for k in sorted(machs)]
-        out.append({'ev': 'Begin', 's': r['id'], 'seq': 0})
+        out.append({'ev': 'Begin', 's': r['id'], 'seq': 0, 'dies': sorted({e['m'] for e in evs if e['ev'] == 'SmLost'})})
         out += evs
     return [hdr] + out
 
@@ -212,6 +212,7 @@ def run(chk, w, tier, replay_case=None, kinds=('plain', 'window', 'kill', 'fatal
     chk.cov['executor_events'] = sum(len(r.get('events', [])) for r in recs)
     chk.cov['executor_windows_found'] = sum(1 for r in recs if r.get('window'))
     chk.cov['executor_kills'] = sum(1 for r in recs for e in r.get('events', []) if e['ev'] == 'HKill')
+    chk.cov['executor_machines_lost_spontaneously'] = sum(len({e['m'] for e in r.get('events', []) if e['ev'] == 'SmLost'} - {e['m'] for e in r.get('events', []) if e['ev'] == 'HKill'}) for r in recs)
     chk.cov['traces_validated_against_impl'] = chk.cov.get('traces_validated_against_impl', 0) + len(recs)
     for c in cases:
         chk.case({k: c[k] for k in c if k != 'id'}, nontrivial=True)
